@@ -427,6 +427,29 @@ impl Monitor for C06 {
                     } else {
                         out.push(viol("C06", "traded_event_missing", ev.idx, "no Traded event for an executed swap".into()));
                     }
+                    // every crossed tick records, for both tokens, the growth that from now on lies on its other side: the
+                    // accumulator at the moment of crossing minus what it held before (that is what lets the LP share of later
+                    // steps accrue to the liquidity then in range, and to nobody else)
+                    {
+                        let mut g_in = pre_g;
+                        for s in &o.trace.steps {
+                            g_in = s.fee_growth_global_input_after;
+                            let Some(t) = s.crossed_tick else { continue };
+                            let (Some(before), Some(after)) = (decode::canonical_tick(ev_pre, &o.whirlpool, o.pre.tick_spacing, t), decode::canonical_tick(ev_post, &o.whirlpool, o.pre.tick_spacing, t)) else { continue };
+                            // a tick crossed twice in one instruction (two-hop over the same array is impossible) is not expected
+                            let (exp_a, exp_b) = if o.a_to_b {
+                                (g_in.wrapping_sub(before.fee_growth_outside_a), o.pre.fee_growth_global_b.wrapping_sub(before.fee_growth_outside_b))
+                            } else {
+                                (o.pre.fee_growth_global_a.wrapping_sub(before.fee_growth_outside_a), g_in.wrapping_sub(before.fee_growth_outside_b))
+                            };
+                            cov.probe("crossed_tick_growth_flip_checked");
+                            if after.fee_growth_outside_a != exp_a || after.fee_growth_outside_b != exp_b {
+                                out.push(viol("C06", "crossed_tick_fee_growth", ev.idx, format!("tick {} crossed by {} ({}): fee growth outside is {} / {} but the accumulators at the crossing minus the previous values give {} / {}",
+                                    t, o.ix_name, if o.is_input { "exact-in" } else { "exact-out" }, after.fee_growth_outside_a, after.fee_growth_outside_b, exp_a, exp_b)));
+                                break;
+                            }
+                        }
+                    }
                     // two-hop legs (plain mints): each pool's vaults move exactly this leg's curve amounts - what a pool books as
                     // received is what its vault received (in v2 the intermediate token goes vault to vault)
                     if o.single.is_none() && o.plain && matches!(c.name(), "two_hop_swap" | "two_hop_swap_v2") {
